@@ -224,11 +224,15 @@ theorem keep_elem (ts : Syntax) (dict : Tag → Option VR) : ∀ (el : Elem), Wf
     subst hts
     have hn := primitiveElement_norm w.enc hex tag vr len (paddedValue w.enc.ts.bigEndian vr v).length v hv hf
     obtain ⟨e1, h1, t1⟩ := primitiveElement_total w.enc ⟨tag, vr, len⟩ v hv.2.1 hv.2.2.1 hf
+    have hnv := normValue_valid w.enc.ts.bigEndian vr v hv
+    have ev1 := encodePrimitiveElement_valid w.enc tag vr len v _ hv
+    have ev2 := encodePrimitiveElement_valid w.enc tag vr (paddedValue w.enc.ts.bigEndian vr v).length _ _ hnv
     refine ⟨?_, ?_⟩
-    · simp only [keepElem, Elem.tokens, hv.1, h2, hlen', if_false, Writer.writeAll, Writer.write, Writer.writeImpl]
+    · simp only [keepElem, Elem.tokens, hv.1, h2, hlen', if_false, Writer.writeAll, Writer.write, Writer.writeImpl,
+        ev1, ev2]
       rw [← hn]
     · intro w' hw'
-      simp only [Elem.tokens, hv.1, h2, if_false, Writer.writeAll, Writer.write, Writer.writeImpl, h1] at hw'
+      simp only [Elem.tokens, hv.1, h2, if_false, Writer.writeAll, Writer.write, Writer.writeImpl, ev1, h1] at hw'
       injection hw' with hw'; subst hw'
       exact ⟨⟨t1, primitiveElement_exact hex _ _ h1⟩, rfl⟩
   | .seq tag len items, h, w, hg, hl => by
